@@ -88,7 +88,7 @@ func (tr *transcript) emit(op, class string, in [][]byte, out [][]byte) {
 	}
 	if idx >= len(tr.ref) || tr.ref[idx].Op != op || tr.ref[idx].In != r.In {
 		tr.failed = true
-		tr.t.Errorf("SELFTEST-FAIL transcript diverged at #%d: this configuration generated %s/%s, the default one %v (the generator must not depend on the configuration)", idx, op, r.In, safeRef(tr.ref, idx))
+		tr.t.Errorf("SELFTEST-FAIL transcript diverged at #%d: this configuration generated %s/%s, the default one %v (the generator must not depend on the configuration; inputs are drawn values only, the single draw bounded by a circl output is the flipped position kpos < len(ct) in kem/*; a rapid failure earlier in this process also ends here, because shrinking re-runs the round)", idx, op, r.In, safeRef(tr.ref, idx))
 		return
 	}
 	if tr.ref[idx].Out != r.Out {
@@ -166,7 +166,10 @@ func TestC14(t *testing.T) {
 	n := vlib.N(60, 400)
 	vlib.Check(t, n, func(rt *rapid.T) { oneRound(rt, tr) })
 	if tr.ref != nil && !tr.failed && len(tr.recs) != len(tr.ref) {
-		t.Errorf("SELFTEST-FAIL transcript lengths differ: %d here, %d in the default configuration", len(tr.recs), len(tr.ref))
+		// no circl result can shorten the transcript silently: every emit is unconditional and the error paths of
+		// oneRound fail the rapid property (which the driver reports as a violation); what remains is a stale or
+		// truncated transcript file of the default configuration
+		t.Errorf("SELFTEST-FAIL transcript lengths differ: %d here, %d in the default configuration's file %s (stale or truncated file)", len(tr.recs), len(tr.ref), transcriptPath())
 	}
 	if vlib.Config == "default" && vlib.OutDir != "" {
 		f, err := os.Create(transcriptPath())
@@ -366,8 +369,12 @@ func oneRound(t *rapid.T, tr *transcript) {
 		// plain SIDH
 		a := sidh.NewPrivateKey(sidh.Fp503, sidh.KeyVariantSidhA)
 		b := sidh.NewPrivateKey(sidh.Fp503, sidh.KeyVariantSidhB)
-		_ = a.Generate(vlib.DrawReader(t, "sa"))
-		_ = b.Generate(vlib.DrawReader(t, "sb"))
+		// the readers' seeds are drawn here (same draws as vlib.DrawReader) so that the transcript's inputs are
+		// drawn values only; the exported private key is an output of circl's Generate
+		sda := rapid.Uint64().Draw(t, "sa.rdseed")
+		_ = a.Generate(vlib.NewReader(sda))
+		sdb := rapid.Uint64().Draw(t, "sb.rdseed")
+		_ = b.Generate(vlib.NewReader(sdb))
 		pa := sidh.NewPublicKey(sidh.Fp503, sidh.KeyVariantSidhA)
 		pb := sidh.NewPublicKey(sidh.Fp503, sidh.KeyVariantSidhB)
 		a.GeneratePublicKey(pa)
@@ -380,15 +387,20 @@ func oneRound(t *rapid.T, tr *transcript) {
 		pa.Export(pab)
 		ab := make([]byte, a.Size())
 		a.Export(ab)
-		tr.emit("sidh/p503", "", [][]byte{ab}, [][]byte{pab, s1, s2})
+		tr.emit("sidh/p503", "", [][]byte{u64b(sda), u64b(sdb)}, [][]byte{ab, pab, s1, s2})
 	}
 	// ---- CSIDH (≈ 50 ms per action: one in six rounds)
 	if rapid.IntRange(0, 5).Draw(t, "csidh") == 0 {
 		var ska, skb csidh.PrivateKey
 		var pka, pkb csidh.PublicKey
-		_ = csidh.GeneratePrivateKey(&ska, vlib.DrawReader(t, "ca"))
-		_ = csidh.GeneratePrivateKey(&skb, vlib.DrawReader(t, "cb"))
-		rng := vlib.DrawReader(t, "cr")
+		// seeds drawn here (same draws as vlib.DrawReader): the transcript's inputs are drawn values only,
+		// the exported private key is an output of circl's GeneratePrivateKey
+		sda := rapid.Uint64().Draw(t, "ca.rdseed")
+		_ = csidh.GeneratePrivateKey(&ska, vlib.NewReader(sda))
+		sdb := rapid.Uint64().Draw(t, "cb.rdseed")
+		_ = csidh.GeneratePrivateKey(&skb, vlib.NewReader(sdb))
+		sdr := rapid.Uint64().Draw(t, "cr.rdseed")
+		rng := vlib.NewReader(sdr)
 		csidh.GeneratePublicKey(&pka, &ska, rng)
 		csidh.GeneratePublicKey(&pkb, &skb, rng)
 		var s1, s2 [64]byte
@@ -398,7 +410,7 @@ func oneRound(t *rapid.T, tr *transcript) {
 		pka.Export(pa)
 		sa := make([]byte, csidh.PrivateKeySize)
 		ska.Export(sa)
-		tr.emit("csidh/512", "", [][]byte{sa}, [][]byte{pa, s1[:], s2[:], {b2b(ok1), b2b(ok2)}})
+		tr.emit("csidh/512", "", [][]byte{u64b(sda), u64b(sdb), u64b(sdr)}, [][]byte{sa, pa, s1[:], s2[:], {b2b(ok1), b2b(ok2)}})
 	}
 	// ---- FourQ, curve4q, P-384, Goldilocks
 	{
@@ -598,6 +610,12 @@ func b2b(b bool) byte {
 
 func le64(b []byte) uint64 {
 	return uint64(b[0]) | uint64(b[1])<<8 | uint64(b[2])<<16 | uint64(b[3])<<24 | uint64(b[4])<<32 | uint64(b[5])<<40 | uint64(b[6])<<48 | uint64(b[7])<<56
+}
+
+func u64b(v uint64) []byte {
+	b := make([]byte, 8)
+	put64(b, v)
+	return b
 }
 
 func put64(b []byte, v uint64) {
